@@ -277,7 +277,8 @@ def oracle_bracket(sim, rr, out):
         out.probe("base-exception-raised")
         if len(m.R) > 1:
             out.probe("base-exception-plus-other")
-        want = {"kbi": KeyboardInterrupt, "sysexit": SystemExit}
+        from .program import Abort
+        want = {"kbi": KeyboardInterrupt, "sysexit": SystemExit, "abort": Abort}
         if rr.raised is None:
             out.violate(
                 "baseexception-not-propagated",
